@@ -284,6 +284,72 @@ def check_presentation(base, rec0, pr):
         return "presentation %s raised %s: %s" % ({k: v for k, v in pr.items() if k != "frac"}, type(e).__name__, str(e)[:200])
 
 
+# ---------------------------------------------------------------------------- large sample sets
+def gen_large_case(rng, d=None):
+    """n in 201..400, 2 or 3 hull dimensions (beyond the reach of the exact Coq specification):
+    checked by the exact contract certificate, the supporting-hyperplane LP oracle on every
+    sample, and in Coq by the facet-based verdicts (M) and (D) on a subsample."""
+    d = d or rng.choice([2, 2, 3])
+    n = rng.randint(201, 400)
+    P, corners, raised, kind = H.gen_large(rng, d, n)
+    h = rng.randint(0, 2)
+    low, nfeat = H.layout(rng, d, h)
+    hd = [[rng.randint(-9, 9) for _ in range(h)] for _ in range(n)]
+    axis = set()
+    for c in range(d):
+        col = [p[1 + c] for p in P]
+        axis.add(col.index(min(col)))
+        axis.add(col.index(max(col)))
+    ymax_axis = max(P[i][0] for i in axis)
+    sub = set(rng.sample(range(n), 16)) | set(rng.sample(corners, min(8, len(corners))))
+    case = dict(variant="large", large=True, d=d, n=n, h=h, low=low, nfeat=nfeat, P=P, hd=hd,
+                tol=rng.choice([1e-8, 1e-6]), ykind="large:" + kind, queries=[], rejected=0, stacked=[],
+                dsub=sorted(sub), corners=corners, raised=raised,
+                corner_above_axis_extremes=sum(1 for c in raised if c not in axis and P[c][0] > ymax_axis))
+    if rng.random() < 0.3:
+        case["history"] = gen_history(rng)
+    return [case]
+
+
+LP_DECIDED = 1e-3       # integer data: margins of the supporting-hyperplane LP below this are left undecided
+
+
+def oracle_large(case, rec):
+    if "error" in rec:
+        return "fit/score raised %s: %s" % (rec["error"], rec.get("error_msg")), None
+    P, d, n = case["P"], case["d"], case["n"]
+    sel = rec["sel"]
+    if sel != sorted({int(v) for s_ in rec["dsimplices"] for v in s_}):
+        return "selected_idx_ %s is not the set of vertices of directional_simplices_" % sel, None
+    margins = [H.lp_margin(P, d, i) for i in range(n)]
+    rec["lp_undecided"] = sum(1 for t in margins if t is None or abs(t) <= LP_DECIDED)
+    for i, t in enumerate(margins):
+        if t is None:
+            continue
+        if t > LP_DECIDED and i not in sel:
+            return ("training sample %d is a vertex of the lower hull (a hyperplane through it lies %g below every "
+                    "other sample) but is not selected (n = %d, %d hull dimensions)" % (i, t, n, d)), None
+        if t < -LP_DECIDED and i in sel:
+            return "selected sample %d is not a vertex of the lower hull (supporting-hyperplane margin %g)" % (i, t), None
+    cert = H.exact_certificate(P, rec["dsimplices"], d)
+    rec["cert"] = {k: v for k, v in cert.items()}
+    if not cert["ok"]:
+        return "exact check of the fitted hull: " + cert["msg"], None
+    noise = 64 * 2.0 ** -53 * H.dist_mag(P, rec, [])
+    scale = max(1.0, max(abs(v) for p in P for v in p))
+    for i, dist in enumerate(rec["dist"]):
+        if dist < -rec["tol"] - noise:
+            return "training sample %d reported below the hull (%g)" % (i, dist), None
+        if i in sel and abs(dist) > noise + 1e-12 * scale:
+            return "selected sample %d has distance %g" % (i, dist), None
+        if i not in sel and cert["on_plane"] == 0 and not dist > 0:
+            return "unselected sample %d (general position) has distance %g" % (i, dist), None
+    sfm = np.asarray(rec["sfm"], dtype=float).reshape(n, -1)
+    if sfm.size and np.max(np.abs(sfm[sel])) > 1e-9 * 10:
+        return "selected sample has high-dimensional residual %g" % float(np.max(np.abs(sfm[sel]))), None
+    return None, None
+
+
 def witness_group():
     """the vm_compute witness of Findings/F15_dch_below_mask.v replayed on the implementation:
     V-shaped hull through (x,y) = (-1,1), (0,0), (1,1); the query (1/2, -1/2) is 1 below the
@@ -319,6 +385,8 @@ def run_impl(case):
 # ---------------------------------------------------------------------------- oracle (search)
 def oracle_fit(case, rec):
     """Direct statement of C19 on one fit's outputs.  Returns (message or None, key)."""
+    if case.get("large"):
+        return oracle_large(case, rec)
     if "error" in rec:
         return "fit/score raised %s: %s" % (rec["error"], rec.get("error_msg")), None
     P, d = case["P"], case["d"]
@@ -480,8 +548,9 @@ def run(ctx):
                  rejected_degenerate_draws=0, errors=0, queries={}, spec_checked=0, chain_checked=0, distance_points=0, ill_conditioned_queries_skipped=0,
                  max_chain_n=0, train_below_tol_within_noise=0, interp_node_residual=0.0,
                  contract=dict(h1=0.0, h2=0.0, h3=0.0, min_abs_ny=1.0), sfm_model_mismatch=0)
-    for g in range(ngroups):
-        fs_ = witness_group() if g == 0 else gen_group(ctx.rng, ctx.quick)
+    nlarge = 6 if ctx.quick else 40
+    for g in range(ngroups + nlarge):
+        fs_ = witness_group() if g == 0 else gen_group(ctx.rng, ctx.quick) if g < ngroups else gen_large_case(ctx.rng, 2 + g % 2)
         rs_ = [run_impl(c) for c in fs_]
         groups.append((len(fits), len(fs_)))
         for c, r in zip(fs_, rs_):
@@ -612,11 +681,14 @@ def run(ctx):
     stats["mask_repaired_disagrees_on_fits"] = sum(1 for v in failed.values() if any(w.startswith("(D)") for w in v))
     stats["distance_points_disagreeing"] = sum(sum(1 for w in v if w.startswith("(D) point")) for v in failed.values())
     # verdicts: search with the oracle wherever something disagrees (and on errors)
-    suspects = set(failed) | {i for i, r in enumerate(recs) if "error" in r} | set(contract_bad)
+    large_idx = [i for i, c in enumerate(fits) if c.get("large")]
+    suspects = set(failed) | {i for i, r in enumerate(recs) if "error" in r} | set(contract_bad) | set(large_idx)
     n_search, per_key = 0, {}
     for i in sorted(suspects):
         msg, key = oracle_fit(fits[i], recs[i])
         n_search += 1
+        if not msg and fits[i].get("large") and i not in failed and i not in contract_bad:
+            continue                                   # large sets always go through their oracle
         which = failed.get(i, [])
         rep = dict(case=fits[i], observed={k: v for k, v in recs[i].items() if k not in ("eq", "simplices")},
                    correspondence=which)
@@ -632,6 +704,12 @@ def run(ctx):
             rep["note"] = "model and implementation disagree but the brute-force oracle accepts the output"
             C.report_violation(ctx, "correspondence DCH model vs implementation broken: " + "; ".join(which),
                                rep, found_input=False)
+    stats["large_n"] = dict(fits=len(large_idx), n=[fits[i]["n"] for i in large_idx], d=[fits[i]["d"] for i in large_idx],
+                            raised_corners=[len(fits[i]["raised"]) for i in large_idx],
+                            corner_above_axis_extremes=[fits[i]["corner_above_axis_extremes"] for i in large_idx],
+                            lp_undecided=[recs[i].get("lp_undecided") for i in large_idx],
+                            samples_on_a_facet_plane=[(recs[i].get("cert") or {}).get("on_plane") for i in large_idx],
+                            exact_certificate_ok=sum(1 for i in large_idx if (recs[i].get("cert") or {}).get("ok")))
     stats["oracle_failures_by_key"] = {str(k): v for k, v in per_key.items()}
     for (s0, k) in groups:
         msg, key = oracle_group(fits[s0:s0 + k], recs[s0:s0 + k])
